@@ -120,7 +120,11 @@ class Action(object):
 
 
 class Sched(object):
-    def __init__(self, pipe_capacity=None, io_points=True, monitor=None, root=None):
+    def __init__(self, pipe_capacity=None, io_points=True, monitor=None, root=None, contended_timeouts=False):
+        # contended_timeouts: a getter can also time out while data is in the pipe, if another process
+        # is waiting on the same queue (in CPython the waiting getter holds the queue's reader lock, and
+        # a second getter's timeout runs while it waits for that lock)
+        self.contended_timeouts = contended_timeouts
         self.procs = []
         self.queues = []
         self.events = []
@@ -261,6 +265,10 @@ class Sched(object):
                 q, block, timeout = op[1], op[2], op[3]
                 if q.pipe:
                     acts.append(Action("%s:recv(%s)" % (n, q.name), p, "recv", self._mk_recv(p, q), 1))
+                    if self.contended_timeouts and block and timeout is not None and any(
+                        o is not p and not o.done and o.pending is not None and o.pending[0] == "get" and o.pending[1] is q for o in self.procs
+                    ):
+                        acts.append(Action("%s:timeout-contended(%s)" % (n, q.name), p, "timeout", self._mk_exc(p, _queue.Empty()), 3))
                 elif (not block) or timeout is not None:
                     acts.append(Action("%s:timeout(%s)" % (n, q.name), p, "timeout", self._mk_exc(p, _queue.Empty()), 3))
             elif k == "set":
